@@ -35,7 +35,7 @@ def build(case):
 def suite_riemann(ctx, case):
     d = build(case); N = int(d.length)
     rs = np.random.RandomState(case['aseed'])
-    f = rs.normal(size=N) * np.exp(-np.arange(N) / (0.3 * N + 1))
+    f = rs.normal(size=N) * np.exp(-np.arange(N) / (0.3 * N + 1)) * case.get('amp', 1.0)
     F = d.to_fourier(f); R = d.to_real(f)
     dr = float(d.dr); dk = float(d.dk)
     r = np.arange(1, N + 1) * dr; k = np.arange(1, N + 1) * dk
@@ -116,7 +116,7 @@ def generate(ctx):
     rng = ctx.rng
     for _ in range(ctx.n(150, 1500)):
         L = rng.choice([3, 4, 5, 7, 8, 11, 13, 16, 17, 23, 31, 32, 33, 47, 64, 96, rng.randint(3, ctx.n(96, 200))])
-        case = {'L': L, 'aseed': rng.randrange(10 ** 6), 'ops': []}
+        case = {'L': L, 'aseed': rng.randrange(10 ** 6), 'ops': [], 'amp': rng.choice([1.0, 1.0, 1.0, 1e-9, 1e-12, 1e6])}
         c0 = rng.random()
         if c0 < 0.15: case['dk'] = float('%.5g' % (10 ** rng.uniform(-3.5, -2)))          # very fine k grids (large r_max): k well below 0.01
         elif c0 < 0.25: case['dr'] = float('%.5g' % (10 ** rng.uniform(0.5, 1.5)))
@@ -130,7 +130,7 @@ def generate(ctx):
         N0 = rng.choice([100, 128, 160, 200, 250])
         if rmax >= 800: N0 = rng.choice([400, 500])                      # large boxes: dk = pi/r_max < 0.01
         name = rng.choice(['gauss', 'gauss', 'yukawa', 'exp', 'sphere'])
-        A = float('%.3g' % (rng.choice([-1, 1]) * 10 ** rng.uniform(-1, 1)))
+        A = float('%.3g' % (rng.choice([-1, 1]) * 10 ** rng.choice([rng.uniform(-1, 1), rng.uniform(-1, 1), rng.uniform(-12, -9), rng.uniform(5, 8)])))
         dr0 = rmax / N0
         if name == 'gauss': a = float('%.4g' % (1.0 / rng.uniform(6 * dr0, max(7 * dr0, min(rmax / 6, 60 * dr0))) ** 2))
         elif name == 'sphere': a = float('%.4g' % rng.uniform(8 * dr0, min(rmax / 4, 80 * dr0)))
